@@ -376,15 +376,15 @@ def run(tier, replay=None):
         "p1": dict(mod="MCJsonGrammar.tla", cfg="MCJsonGrammar_quick.cfg" if quick else "MCJsonGrammar_thorough.cfg",
                    workers=4 if quick else 8),
         "p1sim": dict(mod="MCJsonGrammar.tla", cfg="MCJsonGrammar_sim.cfg", workers=1,
-                      simulate=100 if quick else 600, depth=26, tseed=18),
+                      simulate=100 if quick else 400, depth=26, tseed=18),
         "p1seed": dict(mod="MCJsonGrammar.tla", cfg="MCJsonGrammar_sim.cfg", workers=1,
-                       simulate=40 if quick else 400, depth=26, tseed=1000 + seed),
+                       simulate=40 if quick else 300, depth=26, tseed=1000 + seed),
         "sbfs": dict(mod="MCJsonStringify.tla", cfg="MCJsonStringify_quick.cfg" if quick else "MCJsonStringify_thorough.cfg",
                      workers=3 if quick else 4),
         "ssim": dict(mod="MCJsonStringify.tla", cfg="MCJsonStringify_simq.cfg" if quick else "MCJsonStringify_simt.cfg",
-                     workers=1, simulate=100 if quick else 600, depth=80, tseed=18),
+                     workers=1, simulate=100 if quick else 300, depth=80, tseed=18),
         "sseed": dict(mod="MCJsonStringify.tla", cfg="MCJsonStringify_simq.cfg" if quick else "MCJsonStringify_simt.cfg",
-                      workers=1, simulate=30 if quick else 400, depth=80, tseed=1000 + seed),
+                      workers=1, simulate=30 if quick else 200, depth=80, tseed=1000 + seed),
     }
     if not quick:      # more deterministic simulation, spread over processes (one worker each keeps a seed reproducible)
         for n, sd in (("p1sim2", 19), ("p1sim3", 20)):
@@ -408,7 +408,8 @@ def run(tier, replay=None):
 
     t0 = time.time()
     tl = {}
-    with cf.ThreadPoolExecutor(max_workers=len(jobs)) as ex:
+    # quick: all TLC runs side by side; thorough: the big enumeration plus three single-worker runs at a time
+    with cf.ThreadPoolExecutor(max_workers=len(jobs) if quick else 4) as ex:
         futs = {}
         for n in jobs:
             futs[n] = ex.submit(tlc, n)
@@ -641,6 +642,7 @@ def run(tier, replay=None):
         g = got.get(wc[0]["id"])
         active[feat] = judge_parse(wc[0], g) == "reject-valid"
     reported = {}
+    pending = []          # (js call, original observation, signature, detail): re-run in a fresh context before reporting
     for c, kind, g in sorted(fails, key=lambda f: (len(f[0]["toks"]), f[0]["id"])):
         feat = None
         base = kind.split(":")[-1]
@@ -654,9 +656,11 @@ def run(tier, replay=None):
         reported.setdefault(kind, 0)
         reported[kind] += 1
         if reported[kind] <= 12:
-            ck.failure(sig, {"tokens": c["toks"], "origin": c["origin"], "model": {"verdict": c["exp"], "value": c["val"]},
+            fn = "TR" if kind.startswith("reviver:") else "T"
+            pending.append(("%s(0,%s);" % (fn, js_string_literal(sum(c["toks"], []))), g, sig,
+                            {"tokens": c["toks"], "origin": c["origin"], "model": {"verdict": c["exp"], "value": c["val"]},
                              "engine": g if not isinstance(g, list) else g[:40],
-                             "js": "JSON.parse(%s)" % js_string_literal(sum(c["toks"], []))})
+                             "js": "JSON.parse(%s)" % js_string_literal(sum(c["toks"], []))}))
     for k, n in reported.items():
         if n > 12:
             vlib.log("[C18] %d further failures of kind %s not listed separately" % (n - 12, k))
@@ -680,8 +684,16 @@ def run(tier, replay=None):
         if kind:
             sreported += 1
             if sreported <= 12:
-                ck.failure("stringify:%s JSON.stringify(%s, %s, %s)" % (kind, js_value(t["v"]), js_replacer(t["rep"]), js_value(t["space"])),
-                           {"model": t["out"], "engine": g if not isinstance(g, list) else g[:40], "detail": detail})
+                pending.append(("S(0,function(){return %s},%s,%s);" % (js_value(t["v"]), js_replacer(t["rep"]), js_value(t["space"])), g,
+                                "stringify:%s JSON.stringify(%s, %s, %s)" % (kind, js_value(t["v"]), js_replacer(t["rep"]), js_value(t["space"])),
+                                {"model": t["out"], "engine": g if not isinstance(g, list) else g[:40], "detail": detail}))
+    # every failure is repeated alone on a fresh context; one that does not reproduce is a tool error, not a violation
+    if pending:
+        again = run_cases(bindir, [(n, p[0].replace("(0,", "(%d," % n, 1)) for n, p in enumerate(pending)], chunk=1, procs=4)
+        for n, (call, g, sig, detail) in enumerate(pending):
+            if again.get(n) != g:
+                raise vlib.ToolError("non-reproducible observation for %s: %s vs %s" % (call[:200], str(g)[:200], str(again.get(n))[:200]))
+            ck.failure(sig, detail)
     for s in scases[:: max(1, len(scases) // 3)][:3]:
         ck.sample({"stringify": "JSON.stringify(%s, %s, %s)" % (js_value(s["tree"]["v"]), js_replacer(s["tree"]["rep"]),
                                                               js_value(s["tree"]["space"])),
